@@ -1,5 +1,5 @@
 """C17 — `wait` really waits (DESIGN §3 C17)."""
-from rulelib import SHIPPED, call_sites, callgraph, cfg_of, defs_of, owner
+from rulelib import SHIPPED, call_sites, callgraph, cfg_of, defs_of, owner, short
 from dataflow import field_stores, forward_taint, origins, rvalue_origins
 from facts import canon
 
@@ -140,8 +140,30 @@ def run(prog, chk):
             if only_len and removes:
                 chk.fail("R17.3", JM + "::add_as_current", "id-from-table-length",
                          "Job.id = jobs.len() + const while %s remove(s) from the middle of the table: two live jobs can share a number" % sorted(set(removes)))
+                continue
+            # positive form: with removal from the middle, a fresh id must be an upper bound of *all* live ids: it comes from a
+            # max-like aggregation over the whole table, or from a counter field of the manager that only grows
+            from dataflow import flow_back
+            fl = flow_back(ab, d, s.rv.ops[0], all_args=True) if s.rv.ops else []
+            vias = set()
+            for f in fl:
+                vias |= set(f.via)
+            agg = [v for v in vias if v.endswith(("Iterator::max", "Iterator::max_by_key", "Iterator::max_by", "Iterator::fold", "cmp::max", "Ord::max",
+                                                  "Iterator>::max", "Iterator::reduce", "Iterator::last"))]
+            over_table = any("jobs" in f.field_path() for f in fl)
+            counter = [f for f in fl if f.kind == 'arg' and f.field_path() and f.field_path()[-1] not in ("jobs", "id", "annotation")
+                       and any(x in f.field_path()[-1] for x in ("next", "counter", "last_id", "seq"))]
+            if (agg and over_table and not any(v.endswith("Iterator::last") for v in agg)) or counter:
+                chk.ok("R17.3", "id-source", "id is %s; middle-removal sites: %s"
+                       % ("a maximum over the ids of the whole table + 1" if agg else "taken from a monotonic counter field", sorted(set(removes))),
+                       function=JM + "::add_as_current")
+            elif removes:
+                chk.fail("R17.3", JM + "::add_as_current", "id-not-a-bound-of-live-ids",
+                         "the number given to a new job derives from %s, not from a maximum over all jobs in the table (nor from a counter that only grows), "
+                         "while %s remove(s) jobs from the middle: once the job it was derived from has left the table a live job's number is handed out again"
+                         % (sorted(short(x) if isinstance(x, str) else str(x) for x in srcs)[:5], sorted(set(removes))))
             else:
-                chk.ok("R17.3", "id-source", "id derives from %s; middle-removal sites: %s" % (sorted(srcs), sorted(set(removes))), function=JM + "::add_as_current")
+                chk.ok("R17.3", "id-source", "id derives from %s; no removal from the middle of the table" % sorted(srcs), nontrivial=False, function=JM + "::add_as_current")
 
 
 def _loop_link(chk, body, name, callee, removal):
